@@ -25,14 +25,14 @@ const VerifDir = "/verif"
 const HangSeconds = 10
 
 type Viol struct {
-	Property string         `json:"property"`
-	Check    string         `json:"check"`            // sub-check that found it
-	Sig      string         `json:"signature"`        // construct + failure kind; known-findings match on this
-	Source   string         `json:"source,omitempty"` // PQL source (or other primary input)
-	SourceHex string        `json:"source_hex,omitempty"`
-	Detail   string         `json:"detail,omitempty"` // expected / got, human readable
-	Extra    map[string]any `json:"extra,omitempty"`  // whatever the replay function needs
-	order    [3]int64
+	Property  string         `json:"property"`
+	Check     string         `json:"check"`            // sub-check that found it
+	Sig       string         `json:"signature"`        // construct + failure kind; known-findings match on this
+	Source    string         `json:"source,omitempty"` // PQL source (or other primary input)
+	SourceHex string         `json:"source_hex,omitempty"`
+	Detail    string         `json:"detail,omitempty"` // expected / got, human readable
+	Extra     map[string]any `json:"extra,omitempty"`  // whatever the replay function needs
+	order     [3]int64
 }
 
 type Known struct {
@@ -114,6 +114,7 @@ func New(property, tier, level string) *Runner {
 	}
 	r.Deadline = r.Start.Add(budget)
 	debug.SetMaxStack(256 << 20)
+	debug.SetGCPercent(800)
 	r.initSlots()
 	for i := 0; i < w; i++ {
 		r.workers = append(r.workers, &Worker{R: r, ID: i, counters: map[string]int64{}})
